@@ -213,6 +213,90 @@ pub fn torsion_perturbed(point: &[u8]) -> Option<Vec<u8>> {
     }
 }
 
+
+/// integer multiple of any curve point (also outside the prime order subgroup): plain double and add over the bits of
+/// the big endian byte string, with the complete projective formulas of bls12_381_plus
+fn mul_be<G: Group>(p: &G, k_be: &[u8]) -> G {
+    let mut acc = G::identity();
+    for byte in k_be {
+        for bit in (0..8).rev() {
+            acc = acc.double();
+            if (byte >> bit) & 1 == 1 {
+                acc += *p;
+            }
+        }
+    }
+    acc
+}
+
+fn hexb(s: &str) -> Vec<u8> {
+    let s = if s.len() % 2 == 1 { format!("0{}", s) } else { s.to_string() };
+    hex::decode(s).unwrap()
+}
+
+/// the group order r, big endian
+const R_BE: &str = "73eda753299d7d483339d80809a1d80553bda402fffe5bfeffffffff00000001";
+
+/// A point of exact small prime order q on the curve of the encoding's length (48 bytes: E(Fp), q in {3, 11};
+/// 96 bytes: E'(Fp2), q in {13, 23}) - these primes divide the cofactor. Returns the compressed encoding of
+/// `point + T_q` (on the curve, outside the subgroup; [q] of it equals [q] of the honest point).
+pub fn small_order_perturbed(point: &[u8], q: u32) -> Option<Vec<u8>> {
+    // cofactor / q^e for the prime powers q^e that divide it exactly
+    let (cof_rest, e): (&str, u32) = match (point.len(), q) {
+        (48, 3) => ("13242eaac71ca0722eaae38e55558e39", 1),
+        (48, 11) => ("797dfbc5773068627ab75c63702343", 2),
+        (96, 13) => ("8d5fc7522f6c4d5a3c5663541d68b60a5f9bdc250555d81be2a9b0c6483045a5b213dcb71085945e0aef29c5e8629edf4046db800a8373336b3150941cfdd", 2),
+        (96, 23) => ("2d2a367b86ae74a8af1a258a2d34cf3528b4f0309b1c647efceb33a28d243b0771fe9a3b739d5ddb42e36473f96c739a13152f610a9e2359fc03a804bb595", 2),
+        _ => return None,
+    };
+    let qb = q.to_be_bytes();
+    fn find<G: Group>(candidates: impl Iterator<Item = G>, cof_rest: &[u8], e: u32, qb: &[u8]) -> Option<G> {
+        for c in candidates {
+            // kill the prime order part and every other cofactor part: what remains has order dividing q^e
+            let mut t = mul_be(&mul_be(&c, &hexb(R_BE)), cof_rest);
+            if bool::from(t.is_identity()) {
+                continue;
+            }
+            for _ in 1..e {
+                let n = mul_be(&t, qb);
+                if bool::from(n.is_identity()) {
+                    break;
+                }
+                t = n;
+            }
+            if bool::from(mul_be(&t, qb).is_identity()) && !bool::from(t.is_identity()) {
+                return Some(t);
+            }
+        }
+        None
+    }
+    match point.len() {
+        48 => {
+            let p = g1_from(point)?;
+            let cands = (1u32..400).filter_map(|x| {
+                let mut b = [0u8; 48];
+                b[44..].copy_from_slice(&x.to_be_bytes());
+                b[0] |= 0x80;
+                Option::<G1Affine>::from(G1Affine::from_compressed_unchecked(&b)).map(G1Projective::from)
+            });
+            let t = find(cands, &hexb(cof_rest), e, &qb)?;
+            Some((p + t).to_affine().to_compressed().to_vec())
+        }
+        96 => {
+            let p = g2_from(point)?;
+            let cands = (1u32..400).filter_map(|x| {
+                let mut b = [0u8; 96];
+                b[92..].copy_from_slice(&x.to_be_bytes());
+                b[0] |= 0x80;
+                Option::<G2Affine>::from(G2Affine::from_compressed_unchecked(&b)).map(G2Projective::from)
+            });
+            let t = find(cands, &hexb(cof_rest), e, &qb)?;
+            Some((p + t).to_affine().to_compressed().to_vec())
+        }
+        _ => None,
+    }
+}
+
 // ---- scalars ---------------------------------------------------------------------------------
 
 pub fn scalar_from_be(b: &[u8]) -> Option<Scalar> {
@@ -690,6 +774,24 @@ pub fn elgamal_prove_gen<R: RefSuite>(pk: &R::Pk, gen: &R::Pk, m: &Scalar, b: &S
 // ---- self tests (run at the start of every check that uses the reference) ----------------------
 
 pub fn self_test() -> Result<(), String> {
+    // small order points: P + T differs from P, is not in the subgroup, and q (P + T) = q P
+    for (len, q) in [(48usize, 3u32), (48, 11), (96, 13), (96, 23)] {
+        let honest = if len == 48 { enc(&(G1Projective::generator() * Scalar::from(5u64))) } else { enc(&(G2Projective::generator() * Scalar::from(5u64))) };
+        let bad = small_order_perturbed(&honest, q).ok_or(format!("no point of order {} for length {}", q, len))?;
+        if bad == honest {
+            return Err(format!("order {} perturbation is trivial", q));
+        }
+        let (in_subgroup, times_q_equal) = if len == 48 {
+            let b = Option::<G1Affine>::from(G1Affine::from_compressed_unchecked(bad.as_slice().try_into().unwrap())).ok_or("perturbed point not on curve")?;
+            (bool::from(b.is_torsion_free()), mul_be(&G1Projective::from(b), &q.to_be_bytes()) == G1Projective::generator() * Scalar::from(5u64 * q as u64))
+        } else {
+            let b = Option::<G2Affine>::from(G2Affine::from_compressed_unchecked(bad.as_slice().try_into().unwrap())).ok_or("perturbed point not on curve")?;
+            (bool::from(b.is_torsion_free()), mul_be(&G2Projective::from(b), &q.to_be_bytes()) == G2Projective::generator() * Scalar::from(5u64 * q as u64))
+        };
+        if in_subgroup || !times_q_equal {
+            return Err(format!("order {} perturbation (length {}) is wrong: in subgroup {}, q-multiple equal {}", q, len, in_subgroup, times_q_equal));
+        }
+    }
     // RFC 5869 test case 1
     let ikm = [0x0bu8; 22];
     let salt: Vec<u8> = (0u8..=0x0c).collect();
